@@ -23,10 +23,12 @@ def run(chk):
     chk.exhaustive = True
     batcher.when_flushed_table(chk, P, "C07")
     batcher.receiver_flags(chk, P, "C07")
+    batcher.one_critical_section(chk, P, "C07")
     batcher.watchers_after_last_attempt(chk, P, "C07")
     batcher.retry_remainder(chk, P, "C07")
     batcher.who_may(chk, P, "C07")
     batcher.blocking_flush_sync(chk, P, "C07")
+    batcher.tokio_wait(chk, P, "C07")
     end_to_end(chk, P)
     common.arg_agreement_rule(chk, P, "C07", [("emit_batcher", None)], 3)
     return chk
